@@ -170,23 +170,25 @@ func verifCheckRule(rr *DefaultRuleRenderer, r *proto.Rule) {
 	known := verifKnownStaleScratchBit(r, p, sets, rr.IPSetConfigV4.NameForMainIPSet)
 	v := vEvalRules(rules, p, sets, nil, 0)
 	acc, pass, drop := p.mark&0x80 != 0, p.mark&0x100 != 0, p.mark&0x800 != 0
-	site := func(s string) string {
+	// counterexamples in which a non-first positive block matched and a later one did not are the
+	// known finding (site known-stale-scratch-bit); anything else is reported under its own site
+	check := func(site string, cond bool) {
 		if known {
-			// counterexamples of exactly this shape are the known finding; anything else is new
-			return "known-stale-scratch-bit"
+			verifAssert("known-stale-scratch-bit", cond)
+		} else {
+			verifAssert(site, cond)
 		}
-		return s
 	}
 	switch r.Action {
 	case "allow":
-		verifAssert(site("allow/verdict-iff-match"), (v == vReturn) == want)
-		verifAssert(site("allow/mark-iff-match"), acc == want && !pass && !drop)
+		check("allow/verdict-iff-match", (v == vReturn) == want)
+		check("allow/mark-iff-match", acc == want && !pass && !drop)
 	case "next-tier":
-		verifAssert(site("pass/verdict-iff-match"), (v == vReturn) == want)
-		verifAssert(site("pass/mark-iff-match"), pass == want && !acc && !drop)
+		check("pass/verdict-iff-match", (v == vReturn) == want)
+		check("pass/mark-iff-match", pass == want && !acc && !drop)
 	case "deny":
-		verifAssert(site("deny/verdict-iff-match"), (v == vDrop) == want)
-		verifAssert(site("deny/mark-iff-match"), drop == want && !acc && !pass)
+		check("deny/verdict-iff-match", (v == vDrop) == want)
+		check("deny/mark-iff-match", drop == want && !acc && !pass)
 	case "log":
 		verifAssert("log/never-decides", v == vCont && !acc && !pass && !drop)
 	}
